@@ -140,15 +140,19 @@ Record dstate := mkDS {
   deferred_removals : list (list N);
   events : list N }.              (* the structured part of the messages: hunk reports and summaries *)
 
-(* Backup::make_backup_for *)
+(* Backup::make_backup_for: the part after the name has been recorded and the directory of the backup made *)
+Definition backup_core (st' : dstate) (p b : list N) : M dstate :=
+  let! m := get_fs in
+  if exists_ m p then let! _ := checked (ORename p b) in mret st'
+  else let! _ := checked (OWrite b []) in mret st'.
+
 Definition make_backup_for (o : options) (st : dstate) (p : list N) : M dstate :=
   let b := backup_name o p in
   if existsb (str_eqb b) (backed_up st) then mret st
   else
     let st' := mkDS (had_failure st) (b :: backed_up st) (deferred_writes st) (deferred_removals st) (events st) in
-    let! m := get_fs in
-    if exists_ m p then let! _ := checked (ORename p b) in mret st'
-    else let! _ := checked (OWrite b []) in mret st'.
+    let! _ := ensure_parent_directories b in
+    backup_core st' p b.
 
 Definition write_mask : N := 146.  (* 0222 *)
 
@@ -297,10 +301,7 @@ Definition process_section (o : options) (st : dstate) (should : bool) (p : patc
   let '(st4, write_to_file) := x in
   let! st5 :=
     (if write_to_file then
-       let! _ := (match poper p3 with
-                  | OpAdd | OpRename | OpCopy => ensure_parent_directories output_file
-                  | _ => mret tt
-                  end) in
+       let! _ := ensure_parent_directories output_file in
        let perm_after := if negb (N.eqb (new_mode p3) 0) then Some (N.land (new_mode p3) 4095)
                          else if N.eqb old_perms1 perms_unknown then None else Some old_perms1 in
        let chmod_first := if needed then Some (N.lor old_perms write_mask) else None in
